@@ -171,7 +171,7 @@ def sendableRids (q : List (Rid × Nat)) : List Rid := (q.filter fun p => sendab
 theorem sendableRids_cons (r len : Nat) (rest : List (Rid × Nat)) :
     sendableRids ((r, len) :: rest) = (if sendable len then [r] else []) ++ sendableRids rest := by
   unfold sendableRids
-  by_cases h : sendable len = true <;> simp [List.filter_cons, h]
+  by_cases h : sendable len = true <;> simp [h]
 
 /-- one pass puts exactly the sendable requests of the queue on the wire, in queue order, after what
 was in the open packet -/
@@ -295,7 +295,7 @@ theorem pack_ok (q : List (Rid × Nat)) (dgs : List Dg) (size n : Nat) (hi : OIn
 theorem pack_ids (q : List (Rid × Nat)) (dgs : List Dg) (size n : Nat) :
     (pack q dgs size n).map (·.id) = List.range' n (pack q dgs size n).length := by
   induction q generalizing dgs size n with
-  | nil => unfold pack; split <;> simp [List.range']
+  | nil => unfold pack; split <;> simp
   | cons p rest ih =>
     obtain ⟨r, len⟩ := p
     unfold pack
